@@ -95,6 +95,20 @@ def _order_task(task):
                                             name, name, name, t_ab[name], name, t_ba[name],
                                         ),
                                     )
+                        # the same two Scalars compared while ANOTHER database is the current singleton: a
+                        # Scalar belongs to the database it was created in
+                        with worlds.foreign_singleton():
+                            for name, op in ORDER:
+                                part.count("evaluations", 2)
+                                try:
+                                    g1, g2 = op(a, b), op(b, a)
+                                except Exception as e:
+                                    part.violation("C08:order under a foreign singleton:Scalar:%s:%s %s %s:%s:raised" % (qt, u, name, v, kind), {"error": repr(e)})
+                                    break
+                                if g1 != t_ab[name] or g2 != t_ba[name]:
+                                    part.violation("C08:order under a foreign singleton:Scalar:%s:%s %s %s:%s" % (qt, u, name, v, kind), {"a": repr(a), "b": repr(b), "a op b": g1, "b op a": g2, "physically": [t_ab[name], t_ba[name]]},
+                                                   "from mc import worlds\nfrom barril.units import *\nwith worlds.world('posc'):\n    a, b = Scalar(%r, %r, %r), Scalar(%r, %r, %r)\n    with worlds.foreign_singleton():\n        print(a %s b, b %s a)\n        assert (a %s b) == %r and (b %s a) == %r\n" % (x, u, c, y, v, c, name, name, name, t_ab[name], name, t_ba[name]))
+                                    break
                         if kind == "equal":
                             part.count("equal_probes")
                             if u != v:
@@ -352,6 +366,24 @@ def _fraction_cross_unit_task(qts):
                                         "from mc import worlds\nfrom barril.units import FractionScalar\nfrom barril.basic.fraction import FractionValue\nwith worlds.world('posc'):\n    a = FractionScalar(%r, FractionValue(%r, %r), %r)\n    b = FractionScalar(%r, FractionValue(%r), %r)\n    r = [%s]\n    print(a, b, r)\n    assert r[-1] == %r\n"
                                         % (c, n, (num, den), u, c, y, v, ", ".join(done), truth),
                                     )
+                                    break
+                            # a FractionScalar shares the FractionValue it was built from / hands out: after the
+                            # caller edits it the order follows the NEW amount (nothing remembered from before)
+                            else_ok = True
+                            fv = a.GetValue()
+                            fv.SetNumber(n + 40)
+                            qa2 = model.tobase(u, Q(n + 40) + Q(num, den))
+                            for name, swap in (("<", 0), ("<", 1), (">=", 0)):
+                                part.count("evaluations")
+                                p, q, pa, qb_ = (b, a, qb, qa2) if swap else (a, b, qa2, qb)
+                                truth = {"<": pa < qb_, ">=": pa >= qb_}[name]
+                                try:
+                                    g = opf[name](p, q)
+                                except Exception as e:
+                                    part.violation("C08:fraction-cross-unit:%s %r %s vs %s %s:after the caller changed the number:raised" % (qt, (n, (num, den)), u, kind, v), {"error": repr(e)})
+                                    break
+                                if g != truth:
+                                    part.violation("C08:fraction-cross-unit:%s %r %s vs %s %s:after 8 comparisons the caller sets the number to %d: %s %s %s" % (qt, (n, (num, den)), u, kind, v, n + 40, "b" if swap else "a", name, "a" if swap else "b"), {"got": g, "a": repr(a), "b": repr(b)})
                                     break
                         part.add("nontrivial", ("fcu", u, v))
     return part
